@@ -29,6 +29,10 @@ def make(d, mode="w", normalize=None, inputs=None, **kwargs):
     """Build the geomdl object for a definition.  mode 'w': set homogeneous points through set_ctrlpts;
     mode 'pw': ctrlpts setter then weights setter (rational only); mode 'wp': weights first, the ctrlpts setter last.
     ``inputs``: a dict that receives the list objects handed to the setters (for build.scribble)."""
+    if d.get("as_int"):
+        # whole-number coordinates are handed over as Python ints, as in the documentation's examples
+        d = dict(d)
+        d["P"] = [[int(c) if float(c).is_integer() else c for c in q] for q in d["P"]]
     mod = NURBS if d["rational"] else BSpline
     cls = {"curve": mod.Curve, "surface": mod.Surface, "volume": mod.Volume}[d["kind"]]
     norm = d.get("normalize", True) if normalize is None else normalize
